@@ -176,6 +176,7 @@ fn judge<TC: akd::configuration::Configuration>(base: &[DbRecord], base_epoch: u
 pub enum ReadOp {
     EpochHash,
     Lookup(AkdLabel),
+    BatchLookup(Vec<AkdLabel>),
     History(AkdLabel, akd::HistoryParams),
     Audit(u64, u64),
 }
@@ -218,6 +219,10 @@ fn run_reads<TC: akd::configuration::Configuration>(base: &[DbRecord], batch: &B
                     ReadOp::EpochHash => r.get_epoch_hash().await.map(|e| (e.0, e.1, true)).map_err(|e| e.to_string()),
                     ReadOp::Lookup(u) => match r.lookup(u.clone()).await {
                         Ok((p, eh)) => Ok((eh.0, eh.1, akd::verify::lookup_verify::<TC>(pk.as_bytes(), eh.1, eh.0, u, p).is_ok())),
+                        Err(e) => Err(e.to_string()),
+                    },
+                    ReadOp::BatchLookup(us) => match r.batch_lookup(&us).await {
+                        Ok((ps, eh)) => Ok((eh.0, eh.1, ps.len() == us.len() && us.iter().zip(ps.into_iter()).all(|(u, p)| akd::verify::lookup_verify::<TC>(pk.as_bytes(), eh.1, eh.0, u.clone(), p).is_ok()))),
                         Err(e) => Err(e.to_string()),
                     },
                     ReadOp::History(u, params) => match r.key_history(&u, params).await {
@@ -290,6 +295,10 @@ async fn do_read<TC: akd::configuration::Configuration>(
         ReadOp::EpochHash => r.get_epoch_hash().await.map(|e| (e.0, e.1, true)).map_err(|e| e.to_string()),
         ReadOp::Lookup(u) => match r.lookup(u.clone()).await {
             Ok((p, eh)) => Ok((eh.0, eh.1, akd::verify::lookup_verify::<TC>(pk.as_bytes(), eh.1, eh.0, u.clone(), p).is_ok())),
+            Err(e) => Err(e.to_string()),
+        },
+        ReadOp::BatchLookup(us) => match r.batch_lookup(us).await {
+            Ok((ps, eh)) => Ok((eh.0, eh.1, ps.len() == us.len() && us.iter().zip(ps.into_iter()).all(|(u, p)| akd::verify::lookup_verify::<TC>(pk.as_bytes(), eh.1, eh.0, u.clone(), p).is_ok()))),
             Err(e) => Err(e.to_string()),
         },
         ReadOp::History(u, params) => match r.key_history(u, *params).await {
@@ -481,6 +490,7 @@ fn parse_read_op(t: &[&str]) -> Option<ReadOp> {
     match t {
         ["epochhash"] => Some(ReadOp::EpochHash),
         ["lookup", u] => Some(ReadOp::Lookup(AkdLabel(parse_hex(u)?))),
+        ["batchlookup", us @ ..] if !us.is_empty() => Some(ReadOp::BatchLookup(us.iter().map(|u| parse_hex(u).map(AkdLabel)).collect::<Option<Vec<_>>>()?)),
         ["history", u, p] => Some(ReadOp::History(AkdLabel(parse_hex(u)?), crate::exec_l1::parse_params(p)?)),
         ["audit", s, e] => Some(ReadOp::Audit(s.parse().ok()?, e.parse().ok()?)),
         _ => None,
